@@ -152,6 +152,21 @@ def relations(ctx, ncases):
                              observed=core.canon({k: R.to_labelled(v)[2] for k, v in o12.items()}),
                              expected=core.canon({k: R.to_labelled(v)[2] for k, v in add_out(o1, o2).items()}), tags=tags,
                              theorem="nanmean_add_weights")
+                # "before averaging": the aggregated weighted score is the NaN-skipping mean, over the reduced dims, of the
+                # function's own weighted pointwise field (a NaN weight removes the case from numerator AND denominator)
+                if req != {"preserve_dims": "all"} and e.func not in c01.F9_FUNCS:
+                    oall, exa = c01.safe_call(e, case, {"preserve_dims": "all"}, weights=w1)
+                    if exa is None and set(oall) == set(o1):
+                        try:
+                            expm = {var: oall[var].mean(dim=[d for d in oall[var].dims if d not in o1[var].dims], skipna=True)
+                                    for var in o1}
+                        except Exception:  # noqa: BLE001 — shapes the comparison cannot express
+                            expm = None
+                        if expm is not None and not out_close(o1, expm):
+                            ctx.fail("weight-relations", "property", e.name, "aggregate-not-mean-of-weighted-pointwise", desc,
+                                     observed=core.canon({k: R.to_labelled(v)[2] for k, v in o1.items()}),
+                                     expected=core.canon({k: R.to_labelled(v)[2] for k, v in expm.items()}), tags=tags,
+                                     theorem="scoreEval")
                 # pointwise: preserve-all with weights = w x unweighted
                 if req == {"preserve_dims": "all"}:
                     exp = {var: on[var] * w1 for var in on}
